@@ -166,8 +166,8 @@ def edit(g, rng):
             kind = "scalar"
     if kind == "meta":
         node["meta"] = rng.choice([m for m in ("none", "true", "false") if m != node["meta"]])
-    elif kind == "class" and node["cls"] in ("K2", "K2Old"):
-        node["cls"] = "K2Old" if node["cls"] == "K2" else "K2"
+    elif kind == "class" and node["cls"] in ("K2", "K2Old", "K2Older"):
+        node["cls"] = rng.choice([c for c in ("K2", "K2Old", "K2Older") if c != node["cls"]])
     elif kind == "pre":
         lws = [i for i in ids if g[i]["cls"] in ("LW", "T0")]
         if lws:
@@ -427,10 +427,10 @@ def pairs(rep, prop, n, sd):
             i = index[k + m[1] - 1]
             badenc, neutral, collide = m[2], m[3], m[4]
             payload = {"a": gs[i], "b": g2[i]}
-            if badenc and prop in ("C02", "C03"):
+            if badenc and prop in ("C02", "C03", "C20"):
                 rep.violation(f"{prop}/pairs/stream", f"pair #{i}: identifier stream differs from the specification (nodes {badenc})", payload)
-            if neutral and prop == "C02":
-                rep.violation("C02/pairs/neutral-edit-changes-identifier", f"pair #{i}: same signature, different identifiers (nodes {neutral})", payload)
+            if neutral and prop in ("C02", "C20"):
+                rep.violation(f"{prop}/pairs/neutral-edit-changes-identifier", f"pair #{i}: same signature, different identifiers (nodes {neutral})", payload)
             if collide and prop == "C03":
                 rep.violation("C03/pairs/collision", f"pair #{i}: different signatures share an identifier (nodes {collide})", payload)
     rep.cov["traces_validated_against_impl"] += len(cases)
@@ -626,7 +626,7 @@ def run(prop, tier, replay=None):
     elif prop == "C20":
         model_check(rep, prop, "MC_ConfigSig.tla", "MC_ConfigSig_small.cfg" if tier == "quick" else "MC_ConfigSig.cfg", {"DeprecatedSame"},
                     "a deprecated class hashes like its replacement at any position")
-        pairs(rep, "C02", nq, sd)  # class swaps K2 <-> K2Old are among the edits: equal signature => equal identifier
+        pairs(rep, "C20", nq, sd)  # class swaps K2 <-> K2Old <-> K2Older are among the edits: equal signature => equal identifier
         conformance_random(rep, prop, nq, sd)
         from . import checks_workspace
 
@@ -816,7 +816,7 @@ def _w_resubmit(args):
                 except ValueError:
                     gen[name] = "OUTSIDE:" + str(v)
         for n, o in objs.items():
-            a = {"K": "p", "K2": "q", "K2Old": "q", "G": "p"}.get(graph[n]["cls"])
+            a = {"K": "p", "K2": "q", "K2Old": "q", "K2Older": "q", "G": "p"}.get(graph[n]["cls"])
             if a and o.__xpm__._sealed:
                 v = Path(o.__xpm__.values[a])
                 try:
@@ -828,7 +828,7 @@ def _w_resubmit(args):
 
 
 def resubmit_paths(rep, n, sd, prop="C17"):
-    gs = [g for g in graphs(n * 3, sd + 9) if all(x["cls"] in ("K", "K2", "K2Old", "V", "G", "PX", "QX", "N", "DH") and not x["pre"] for x in g.values())
+    gs = [g for g in graphs(n * 3, sd + 9) if all(x["cls"] in ("K", "K2", "K2Old", "K2Older", "V", "G", "PX", "QX", "N", "DH") and not x["pre"] for x in g.values())
           and _acyclic(g)][:n]
     with pool() as ex:
         out = list(ex.map(_w_resubmit_safe, [(g, sd) for g in gs], chunksize=5))
